@@ -379,7 +379,9 @@ def reuse_probe(fn, args, mutate, kwargs=None, t=3.0, tol=0.0, seed=None):
       3. calls fn(*args) again on the SAME objects,
       4. calls fn on fresh deep copies of the mutated arguments,
     and returns None if 3 and 4 agree (same exception kind, or same_result within tol) or a dict describing the
-    disagreement. `seed` (int) is passed as seed=... to each call when given. Timeouts return None (nothing to compare)."""
+    disagreement. `seed` (int) is passed as seed=... to each call when given. Timeouts return None (nothing to compare).
+    Not covered here: an in-place edit of the caller's arrays by call 1 reaches both call 3 and call 4 (the snapshot is
+    taken after it), so argument mutation as such is the business of C13 and of the per-check `input-modified` tests."""
     import copy
     kw = dict(kwargs or {})
     if seed is not None:
